@@ -332,22 +332,50 @@ def wrap(rt, v):
     return v
 
 
-ACC = re.compile(r"^(?:locustdb_serialization::)?(\w+_capnp)::((?:\w+::)+)(Builder|Reader)(?:::<[^>]*>)?::(\w+)(?:::<.*>)?$")
+# rustc prints a unique suffix of the path: inside locustdb-serialization the schema module may be missing
+ACC = re.compile(r"^(?:locustdb_serialization::)?(?:(\w+_capnp)::)?((?:[a-z_0-9]+::)+)(Builder|Reader)(?:::<[^>]*>)?::(\w+)(?:::<.*>)?$")
+
+
+def all_modules(ex):
+    root = ex.roots.get("ser") or ex.roots.get("main")
+    return [os.path.basename(p)[:-len(".capnp")] + "_capnp" for p in glob.glob(os.path.join(root, "locustdb-serialization", "schemas", "*.capnp"))
+            if os.path.basename(p) != "rust.capnp"]
+
+
+def find_struct(ex, module, segs):
+    """(module, full path) of the schema struct a (possibly abbreviated) Rust path designates"""
+    hits = []
+    for mod in ([module] if module else all_modules(ex)):
+        sch = schema_for(ex, mod)
+        for p in sch.structs:
+            if p[-len(segs):] == segs and (module is None or p == segs or True):
+                if module is not None and p != segs:
+                    continue
+                hits.append((mod, p))
+    if len(hits) == 1:
+        return hits[0]
+    return None
 
 
 @model(ACC.pattern)
 def m_capnp_accessor(ex, st, fr, path, args, m):
     module, segs, kind, method = m.group(1), tuple(m.group(2).strip(":").split("::")), m.group(3), m.group(4)
-    sch = schema_for(ex, module)
-    if segs not in sch.structs:
+    if not args:
         return NotImplemented
-    node = sch.structs[segs]
-    if method in ("reborrow", "reborrow_as_reader", "into_reader"):
-        return rec_of(args[0])[0]
+    v0 = deref_val(args[0])
+    while isinstance(v0, Ref):
+        v0 = deref_val(v0)
+    if not (isinstance(v0, Agg) and v0.name == "CapStruct"):
+        return NotImplemented
     r, rec = rec_of(args[0])
     tm, tp = rec_type(rec)
-    if (tm, tp) != (module, segs):
-        raise Unsupported(f"capnp accessor {module}::{'::'.join(segs)}::{method} applied to a {tm}::{'::'.join(tp)} record")
+    if tp[-len(segs):] != segs or (module is not None and (module, segs) != (tm, tp)):
+        raise Unsupported(f"capnp accessor {module or '?'}::{'::'.join(segs)}::{method} applied to a {tm}::{'::'.join(tp)} record")
+    module, segs = tm, tp
+    sch = schema_for(ex, module)
+    node = sch.structs[segs]
+    if method in ("reborrow", "reborrow_as_reader", "into_reader"):
+        return r
     if method == "which":
         if not node.union:
             return NotImplemented
@@ -431,10 +459,14 @@ def m_msg_new(ex, st, fr, path, args, m):
     return Agg("struct", [UNIT], name="CapMessage")
 
 
-@model(r"^capnp::message::Builder::<.*>::init_root::<.*?((?:\w+_capnp)::(?:\w+::)+)Builder(?:<[^>]*>)?>$")
+@model(r"^capnp::message::Builder::<.*>::init_root::<(?:'_, )?(?:locustdb_serialization::)?((?:\w+::)+)Builder(?:<[^>]*>)?>$")
 def m_msg_init_root(ex, st, fr, path, args, m):
-    module, rest = m.group(1).split("::", 1)
-    segs = tuple(rest.strip(":").split("::"))
+    parts = m.group(1).strip(":").split("::")
+    module = parts[0] if parts[0].endswith("_capnp") else None
+    hit = find_struct(ex, module, tuple(parts[1:] if module else parts))
+    if hit is None:
+        raise Unsupported("init_root: cannot identify the schema struct of " + m.group(1))
+    module, segs = hit
     msg = deref_val(args[0])
     msg.fields[0] = new_rec(module, segs)
     return Ref(args[0].cell, args[0].path + (("f", 0),), None, False, True)
